@@ -63,6 +63,7 @@ class Ctx:
 
 CTX = Ctx()
 _hooks_installed = False
+ORIGINALS: Dict[str, Any] = {}      # the repository's own functions that install_hooks() wrapped
 
 
 def _cur(obj) -> bool:
@@ -165,6 +166,7 @@ def install_hooks():
     CS.stageIn = cs_stagein
 
     o_finish = CS.finish
+    ORIGINALS["ComponentState.finish"] = o_finish
 
     def cs_finish(self, finalState):
         if not _cur(self):
@@ -264,6 +266,7 @@ def install_hooks():
     RE = engine.RepeatingEngine
 
     o_er = E.restart
+    ORIGINALS["Engine.restart"] = o_er
 
     def e_restart(self, reason=None, code=None):
         if not _cur(self):
@@ -612,4 +615,85 @@ def install_line_yield(p: float, seed: int = 0, sleep_s: float = 0.0):
     mon.register_callback(tool, mon.events.LINE, on_line)
     mon.set_events(tool, mon.events.LINE)
     _line_yield_installed = True
+    return counter
+
+
+# --------------------------------------------------------------------------- targeted yield injection
+
+_targeted_installed = False
+TARGET_FUNCTIONS = (
+    # (module, top-level qualname, names of nested functions to include) - the hand-off points between the threads
+    # that generate engine / component state snapshots and the threads that deliver them
+    ("engine", "Engine.emit_now", ("drain",)),
+    ("engine", "Engine._setExitReason", ()),
+    ("engine", "Engine.restart", ()),
+    ("workflow", "ComponentState.__init__", ("UpdateStateBasedOnEngine", "StateFilter")),
+    ("workflow", "ComponentState.finish", ("Setter", "stop_engine")),
+)
+
+
+def install_targeted_yield(p: float = 0.3, max_sleep: float = 0.004, seed: int = 0):
+    """LINE events restricted to a handful of code objects (sys.monitoring local events): with probability p the
+    thread sleeps up to max_sleep at a line boundary inside the snapshot hand-off functions.  Cheap enough for the
+    quick tier; it widens windows that exist anyway (a thread can be pre-empted at any line boundary)."""
+    global _targeted_installed
+    if _targeted_installed or p <= 0:
+        return None
+    import sys
+    import types
+    mon = sys.monitoring
+    tool = mon.OPTIMIZER_ID
+    try:
+        mon.use_tool_id(tool, "verif-targeted-yield")
+    except ValueError:
+        return None
+    mods = {"engine": engine, "workflow": workflow, "control": control}
+    rng = random.Random(seed)
+    lock = threading.Lock()
+    counter = {"lines": 0, "yields": 0, "code_objects": 0}
+
+    def nested(code, names):
+        out = []
+        for c in code.co_consts:
+            if isinstance(c, types.CodeType):
+                if c.co_name in names:
+                    out.append(c)
+                out.extend(nested(c, names))
+        return out
+
+    long_pause = set()      # code objects that DELIVER a snapshot: occasionally a much longer pause (a thread that
+                            # loses the CPU between taking a snapshot off the queue and handing it on)
+
+    def on_line(code, line):
+        with lock:
+            counter["lines"] += 1
+            if code in long_pause and rng.random() < 0.12:
+                do, d = True, 0.01 + rng.random() * 0.03
+            else:
+                do = rng.random() < p
+                d = rng.random() * max_sleep
+        if do:
+            counter["yields"] += 1
+            time.sleep(d)
+
+    mon.register_callback(tool, mon.events.LINE, on_line)
+    for mod, qual, inner in TARGET_FUNCTIONS:
+        obj = mods[mod]
+        try:
+            if qual in ORIGINALS:
+                fn = ORIGINALS[qual]
+            else:
+                for part in qual.split("."):
+                    obj = getattr(obj, part)
+                fn = obj
+            code = fn.__code__
+        except Exception:
+            continue
+        codes = [code] + nested(code, set(inner))
+        for c in codes:
+            mon.set_local_events(tool, c, mon.events.LINE)
+            counter["code_objects"] += 1
+            if c.co_name in ("drain", "UpdateStateBasedOnEngine"):
+                long_pause.add(c)
+    _targeted_installed = True
     return counter
